@@ -239,6 +239,23 @@ def _derives_from(f, key_text, elem_expr, popvars=()):
     return False
 
 
+def _difference_with(f, v, depth=0):
+    """text of S when the expression v is `X - S` / `X.difference(S)`, directly or through a local one-expression helper
+    (def unseen(p, seen): return succ(p).difference(seen)  called as  unseen(x, result))"""
+    if isinstance(v, ast.BinOp) and isinstance(v.op, ast.Sub):
+        return u(v.right)
+    if isinstance(v, ast.Call) and isinstance(v.func, ast.Attribute) and v.func.attr == 'difference' and len(v.args) == 1 and not v.keywords:
+        return u(v.args[0])
+    if isinstance(v, ast.Call) and isinstance(v.func, ast.Name) and v.func.id in f.nested and not v.keywords and depth < 2:
+        h = f.nested[v.func.id]
+        body = [b for b in h.node.body if not (isinstance(b, ast.Expr) and isinstance(b.value, ast.Constant))]
+        if len(body) == 1 and isinstance(body[0], ast.Return) and body[0].value is not None and len(h.params) == len(v.args):
+            inner = _difference_with(h, body[0].value, depth + 1)
+            if inner in h.params:
+                return u(v.args[h.params.index(inner)])
+    return None
+
+
 def _marker_updates(loop, marker, key_text=None):
     """statements in the loop that mark: M.add(k) / M[k] = v / M = M | E / M |= E / M.update(E)"""
     out = []
@@ -254,6 +271,10 @@ def _marker_updates(loop, marker, key_text=None):
                         and marker in (u(st.value.left), u(st.value.right)):
                     other = st.value.right if u(st.value.left) == marker else st.value.left
                     out.append((st, u(other)))
+                # M = M.union(E)
+                if isinstance(t, ast.Name) and t.id == marker and isinstance(st.value, ast.Call) and isinstance(st.value.func, ast.Attribute) and st.value.func.attr == 'union' \
+                        and u(st.value.func.value) == marker and len(st.value.args) == 1:
+                    out.append((st, u(st.value.args[0])))
         elif isinstance(st, ast.AugAssign) and u(st.target) == marker and isinstance(st.op, ast.BitOr):
             out.append((st, u(st.value)))
     return out
@@ -400,8 +421,8 @@ def check_search_loop(ctx, rep, wl: WLoop):
                 defs = [d for d in _single_def(f, expr.id)]
                 for d in defs:
                     v = d.value
-                    if isinstance(v, ast.BinOp) and isinstance(v.op, ast.Sub):
-                        seen = u(v.right)
+                    seen = _difference_with(f, v)
+                    if seen is not None:
                         ups = [m for m in _marker_updates(loop, seen) if m[1] == expr.id]
                         if ups:
                             ok = True
@@ -1170,6 +1191,15 @@ def check_single_expansion(ctx, rep, f, rule=RULE + '.W9'):
                 rep.violates(rule, f, bad[0], 'after {} the loop over the alternatives goes on: a node whose span can be split at two positions gets the children of both splits, so the derivation contains a step that is no rule of the grammar'.format(u(bad[0].value)))
             else:
                 rep.holds(rule, f, inner, 'the loop over the alternatives is left right after the popped node received its children (one expansion per node)')
+        # no loop over the alternatives at all: the first fitting alternative is picked by an expression (next(...)) and the
+        # children are added once per popped node, outside any inner loop
+        inner_nodes = {id(y) for x in ast.walk(wl) if isinstance(x, (ast.For, ast.While)) and x is not wl for y in ast.walk(x)}
+        direct = [c for c in ast.walk(wl) if isinstance(c, ast.Expr) and isinstance(c.value, ast.Call) and isinstance(c.value.func, ast.Attribute)
+                  and c.value.func.attr in ('append', 'extend', 'add', 'insert') and isinstance(c.value.func.value, ast.Name) and c.value.func.value.id in popped and id(c) not in inner_nodes]
+        if direct and not any(isinstance(x, ast.For) and x is not wl and any(isinstance(c, ast.Expr) and isinstance(c.value, ast.Call) and isinstance(c.value.func, ast.Attribute)
+                                                                             and isinstance(c.value.func.value, ast.Name) and c.value.func.value.id in popped for c in ast.walk(x)) for x in ast.walk(wl)):
+            n += 1
+            rep.holds(rule, f, direct[0], 'the children of the popped node are added outside any loop over alternatives: one expansion per node')
     return n
 
 
@@ -1212,11 +1242,24 @@ def check_recursive_memo(ctx, rep, funcs, rule=RULE + '.recmemo'):
             for s in st.body:
                 for x in ast.walk(s):
                     order.append(x)
+            aliases = set()
             for i, x in enumerate(order):
                 if isinstance(x, ast.Assign) and len(x.targets) == 1 and isinstance(x.targets[0], ast.Subscript) and u(x.targets[0].value) == D and u(x.targets[0].slice) == p \
                         and not any(c in selfcalls for c in ast.walk(x.value)) and seeded_at is None:
                     seeded_at = (i, x)
+                # D[p] = W = set()   /   W = D[p]: W is the entry itself
+                if isinstance(x, ast.Assign) and len(x.targets) >= 2 and any(isinstance(t0, ast.Subscript) and u(t0.value) == D and u(t0.slice) == p for t0 in x.targets) \
+                        and not any(c in selfcalls for c in ast.walk(x.value)):
+                    if seeded_at is None:
+                        seeded_at = (i, x)
+                    aliases |= {t0.id for t0 in x.targets if isinstance(t0, ast.Name)}
+                if isinstance(x, ast.Assign) and len(x.targets) == 1 and isinstance(x.targets[0], ast.Name) and u(x.value) == '{}[{}]'.format(D, p) and seeded_at is not None:
+                    aliases.add(x.targets[0].id)
                 rec = None
+                if isinstance(x, ast.AugAssign) and isinstance(x.target, ast.Name) and x.target.id in aliases and isinstance(x.op, (ast.BitOr, ast.Add)):
+                    rec = [c for c in ast.walk(x.value) if c in selfcalls]
+                if isinstance(x, ast.Call) and isinstance(x.func, ast.Attribute) and x.func.attr in ('update', 'extend') and isinstance(x.func.value, ast.Name) and x.func.value.id in aliases:
+                    rec = [c for a in x.args for c in ast.walk(a) if c in selfcalls]
                 if isinstance(x, ast.AugAssign) and isinstance(x.target, ast.Subscript) and u(x.target.value) == D and u(x.target.slice) == p:
                     rec = [c for c in ast.walk(x.value) if c in selfcalls]
                 if isinstance(x, ast.Assign) and len(x.targets) == 1 and isinstance(x.targets[0], ast.Subscript) and u(x.targets[0].value) == D and u(x.targets[0].slice) == p:
@@ -1233,7 +1276,7 @@ def check_recursive_memo(ctx, rep, funcs, rule=RULE + '.recmemo'):
             if any(isinstance(x, (ast.Attribute, ast.Subscript)) and u(x.value) == p for x in ast.walk(arg)):
                 continue
             # the memo hit is handed out as the answer
-            returns_memo = any(isinstance(r, ast.Return) and r.value is not None and u(r.value) == '{}[{}]'.format(D, p) for r in walk_no_nested(g.node))
+            returns_memo = any(isinstance(r, ast.Return) and r.value is not None and (u(r.value) == '{}[{}]'.format(D, p) or u(r.value) in aliases) for r in walk_no_nested(g.node))
             if not returns_memo:
                 continue
             n += 1
